@@ -44,6 +44,9 @@ class World:
         self.popprop = None
         self.rates = None
         self.psi = None
+        # a Hamiltonian made directly from a matrix (NO rotating-wave reference) with its own
+        # system-bath interaction, shared by whatever is built on it
+        self.ham2, self.sbi2 = systems.ham_sbi([e for e in en], J, BATH, self.ta)
 
     # ---- observable inputs ----------------------------------------------
     def snapshot(self):
@@ -77,6 +80,12 @@ class World:
         }
         if getattr(self, "rates", None) is not None:
             snap["rate_matrix.data"] = numpy.array(self.rates.data, copy=True)
+        h2 = self.ham2
+        snap["plain_ham._data"] = numpy.array(h2._data, copy=True)
+        snap["plain_ham.has_rwa"] = bool(getattr(h2, "has_rwa", False))
+        snap["plain_ham.rwa_indices"] = None if getattr(h2, "rwa_indices", None) is None \
+            else numpy.array(h2.rwa_indices, copy=True)
+        snap["plain_ham.protected"] = bool(h2.is_basis_protected)
         for name, (prop, settings) in self.props.items():
             rt = prop.RelaxationTensor if hasattr(prop, "RelaxationTensor") else None
             if rt is not None and not getattr(rt, "as_operators", False) and hasattr(rt, "_data"):
@@ -165,6 +174,43 @@ class World:
             with cm:
                 self.call(list(first))
                 return self.call(list(second))
+        if name == "heom_plain":
+            # hierarchy + propagator set up on the plain Hamiltonian (the library refuses a
+            # Hamiltonian without RWA; whatever it answers, the Hamiltonian stays as it was)
+            from quantarhei.qm.liouvillespace.heom import KTHierarchy, KTHierarchyPropagator
+            hy = KTHierarchy(self.ham2, self.sbi2, 1)
+            kp = KTHierarchyPropagator(self.ta, hy)
+            ev = kp.propagate(self.rho["rho0"])
+            return {"evolution": numpy.array(ev.data, copy=True)}
+        if name == "propagate_plain":
+            if "plain" not in self.props:
+                self.props["plain"] = (qr.qm.ReducedDensityMatrixPropagator(self.ta, self.ham2),
+                                       {"Nref": 1})
+            ev = self.props["plain"][0].propagate(self.rho["rho0"])
+            return {"evolution": numpy.array(ev.data, copy=True),
+                    "in_rwa": numpy.array([1.0 if getattr(ev, "is_in_rwa", False) else 0.0])}
+        if name == "propagate_pdeph":
+            # pure dephasing + refinement requested through the propagate argument
+            _, nref = op
+            if "pdeph" not in self.props:
+                from quantarhei.qm import PureDephasing
+                RR, hh = self.agg.get_RelaxationTensor(self.ta,
+                                                       relaxation_theory="standard_Redfield")
+                dd = self.ham.dim
+                g = numpy.zeros((dd, dd))
+                for i in range(dd):
+                    for j in range(dd):
+                        if i != j:
+                            g[i, j] = 0.004 * (1 + abs(i - j))
+                pd = PureDephasing(drates=g, dtype="Lorentzian")
+                self.props["pdeph"] = (qr.qm.ReducedDensityMatrixPropagator(
+                    self.ta, hh, RR, PDeph=pd), {"Nref": 1})
+            p, settings = self.props["pdeph"]
+            if nref > 1:
+                settings["Nref"] = nref          # documented: a setting that stays on the object
+            ev = p.propagate(self.rho["rho0"], Nref=nref) if nref > 1 \
+                else p.propagate(self.rho["rho0"])
+            return {"evolution": numpy.array(ev.data, copy=True), "_settings": dict(settings)}
         if name == "bad":
             # a call with an argument the library refuses: whatever it answers (normally an
             # exception, which the caller handles), the inputs are as before and later calls
@@ -340,6 +386,7 @@ def menu(tier):
            ["rates", "redfield"], ["rates", "foerster"],
            ["abs"], ["dm", "thermal"], ["dm", "impulsive_excitation"]]
     ops = [o for o in ops if o is not None]
+    ops += [["heom_plain"], ["propagate_plain"], ["propagate_pdeph", 1], ["propagate_pdeph", 5]]
     ops += [["bad", "tensor_cutoff"], ["bad", "tensor_theory"], ["bad", "dm_condition"],
             ["bad", "propagate_dim"], ["propagate", "standard_Redfield", False, "rho0", 2]]
     ops += [["propagate", "noneq_Foerster", True, "rho0", 1],
@@ -460,6 +507,9 @@ def execute(hist):
                 inner = list(inner)
                 inner[4] = res["_settings"]["Nref"]
                 twop = ["in", twop[1], inner] if twop[0] == "in" else inner
+            if inner[0] == "propagate_pdeph" and res is not None and \
+                    res.get("_settings", {}).get("Nref", 1) > 1:
+                twop = ["propagate_pdeph", res["_settings"]["Nref"]]
             try:
                 ref = tw.call(twop)
                 tcr = None
@@ -545,7 +595,9 @@ def run(run):
                     ["in", "basis", ["propagate_free", "rho0"]],
                     ["tensor", "combined_RedfieldFoerster", False, False], ["sv"],
                     ["dm", "thermal"], ["heom", "rho0"], ["heom_free", "rho0"],
-                    ["pop"], ["pop_matrix", 2], ["pop_matrix", -1]]
+                    ["pop"], ["pop_matrix", 2], ["pop_matrix", -1],
+                    ["heom_plain"], ["propagate_plain"],
+                    ["propagate_pdeph", 1], ["propagate_pdeph", 5]]
     run_bfs(run, execute, depth, cap_s=25 if run.tier == "quick" else 240,
             section="refusals-and-settings")
     execute.menu = full
